@@ -34,6 +34,12 @@ Case(s) == LET p == Parse(s) IN
 ASSUME \A s \in All : Parse(s).ok \in BOOLEAN
 ASSUME \E s \in All : Parse(s).ok /\ Parse(s).rest # <<>>
 ASSUME JsonSerialize("wire_bytes.json", SetToSeq({Case(s) : s \in All}))
+\* messages too long to be spelled out byte by byte: well-formed headers followed by a call of a method nobody registered whose
+\* NAME has n bytes (the UNKNOWN_METHOD reply echoes the name, so the reply outgrows a server's reply buffer long before the
+\* request outgrows the broker's message limit), and a ping whose string argument has n bytes.  Wire!Parse accepts all of them;
+\* the drivers build the bytes with the real protocol.
+LongCases == {[kind |-> "unknown-method", n |-> n] : n \in {0, 300, 70000, 600000}} \cup {[kind |-> "ping-argument", n |-> n] : n \in {70000, 1000000}}
+ASSUME JsonSerialize("wire_long.json", SetToSeq(LongCases))
 ASSUME PrintT("CASES " \o ToString(Cardinality(All)))
 VARIABLE x
 Spec == x = 0 /\ [][FALSE]_x
